@@ -549,6 +549,10 @@ func opqOf(cls, id int) any {
 		v = (*int)(nil)
 	case 6:
 		v = []int{id}
+	case 20: // C20: nil pointer to the native Stack type (satisfies stackage.Interface)
+		v = (*stackage.Stack)(nil)
+	case 21: // C20: nil pointer to the native Condition type
+		v = (*stackage.Condition)(nil)
 	default:
 		v = &Opq{Cls: cls, ID: id}
 	}
